@@ -93,6 +93,8 @@ def run(ctx):
         ctx.check(not probs, 'C10.3', 'breakpoint:%s-iff' % nm, f_new.loc(),
                   '%s is reached iff (no connection selected or this one) and the breakpoint matcher matches this message' % nm,
                   '%s reached=%s in scenario %s' % ((nm, probs[0][2], probs[0][1]) if probs else ('', '', '')))
+    from .c06 import check_selection
+    check_selection(ctx, 'C10.3')
     nst = 0
     for p in npaths:
         for e in p.events:
